@@ -61,6 +61,7 @@ type Controller struct {
 	Methods  []Method `json:"methods"`
 	Lead     []string `json:"lead,omitempty"`
 	Extra    []string `json:"extra,omitempty"`
+	Grouped  bool     `json:"grouped,omitempty"`  // declared inside a grouped type ( ... ) block
 	NoEmbed  bool     `json:"no_embed,omitempty"` // a plain struct (not a controller) carrying annotated methods
 	File     string   `json:"file,omitempty"`     // file name override (several controllers in one file)
 	Fields   string   `json:"-"`                  // extra struct fields (runtime seam)
@@ -227,6 +228,21 @@ func renderMethod(sb *strings.Builder, c Controller, m Method) {
 }
 
 func renderController(sb *strings.Builder, c Controller) {
+	if c.Grouped {
+		// the declaration sits inside a grouped `type ( ... )` block, with its doc comment on the spec itself
+		var inner strings.Builder
+		cc := c
+		cc.Grouped = false
+		renderController(&inner, cc)
+		text := strings.TrimRight(inner.String(), "\n")
+		text = strings.Replace(text, "type "+c.Name+" struct {", c.Name+" struct {", 1)
+		sb.WriteString("type (\n")
+		for _, l := range strings.Split(text, "\n") {
+			sb.WriteString("\t" + l + "\n")
+		}
+		sb.WriteString(")\n\n")
+		return
+	}
 	for _, l := range c.Lead {
 		sb.WriteString(l + "\n")
 	}
